@@ -49,6 +49,9 @@ const preludeSMT = `
 ; a trailing start delimiter is preceded by clean text (so that removing it exposes no partial marker)
 (define-fun CS ((a (Array Int Int)) (n Int)) Bool (=> (endsS a n) (clean a (- n 3))))
 (define-fun sameView ((a (Array Int Int)) (b (Array Int Int))) Bool (= a b))
+; badTail a n: the byte string a[0..n) ends in a byte sequence that is not a complete, valid UTF-8 encoding
+; (uninterpreted: tied to utf8.DecodeLastRune by its assumed contract)
+(declare-fun badTail ((Array Int Int) Int) Bool)
 ; dep is constant on [lo, hi]
 (define-fun depConst ((a (Array Int Int)) (lo Int) (hi Int)) Bool
   (forall ((j Int)) (=> (and (<= lo j) (<= j hi)) (= (dep a j) (dep a lo)))))
@@ -74,6 +77,7 @@ func init() {
 	specFns["frag"] = specFn{"frag", []string{seq, "int"}, SBool}
 	specFns["CS"] = specFn{"CS", []string{seq, "int"}, SBool}
 	specFns["sameView"] = specFn{"sameView", []string{seq, seq}, SBool}
+	specFns["badTail"] = specFn{"badTail", []string{seq, "int"}, SBool}
 
 	// every array update that preserves a prefix instantiates DepCong (proved in prelude_lemmas.go)
 	prefixFns = append(prefixFns, func(e *Env, oldA, newA, bound, cond *Term) {
@@ -94,7 +98,7 @@ func init() {
 var preludeDefined = map[string]bool{
 	"nilU": true, "emptyArr": true, "godiv": true, "gorem": true, "bitand": true, "bitor": true, "bitnot": true, "streq": true,
 	"isS": true, "isE": true, "isM": true, "dep": true, "depStep": true, "clean": true, "WF": true, "LS": true,
-	"WFP": true, "depConst": true, "shift": true, "CS": true, "sameView": true, "noMarker": true, "noNL": true, "sameBytes": true, "endsS": true, "endsE": true, "frag": true,
+	"WFP": true, "depConst": true, "shift": true, "CS": true, "sameView": true, "badTail": true, "noMarker": true, "noNL": true, "sameBytes": true, "endsS": true, "endsE": true, "frag": true,
 }
 
 // axiomsFor produces on-demand declarations and ground axiom instances for a query.
